@@ -809,6 +809,191 @@ theorem combined_eq_modules_text (src : Source) (t : Str) (date : Option DateQ)
     ∃ ms, dictGet? all s = some ms ∧ dictGet? ms m = some (pick res s) :=
   combined_eq_modules src (.text t) date all hall m res hres s hs (pieces_clean t s hs)
 
+/-! ### Source paths: the lookup theorems reach `Module.get` for the SINEX and the SSC source -/
+
+theorem histGet_map {α β} (f : α → β) (h : History α) (d : Date) :
+    histGet (h.map (fun (k, a) => (k, f a))) d = (histGet h d).map f := by
+  induction h with
+  | nil => rfl
+  | cons p t ih =>
+    obtain ⟨k, a⟩ := p
+    simp only [List.map_cons, histGet]
+    split <;> simp [ih]
+
+/-- the answer of a history module for a date, given the records its source holds -/
+def answerOf {ρ} (key : ρ → Interval) (toEntry : ρ → Entry) (rs : List ρ) (d : Date) : Val :=
+  match histGet (createHistory key rs []) d with
+  | none => .none
+  | some r => .entry (toEntry r)
+
+/-- **SSC source**: `SiteCoord.get("ssc", data, station, date)` is the interval search over the
+station's `pos_vel` records (in dict order) -/
+theorem ssc_siteCoord_get (dd : List (Str × SscStation)) (station : Str) (st : SscStation) (d : Date)
+    (hne : dd ≠ []) (hst : findKey dd station = some st) :
+    moduleGet1 .siteCoord (.ssc dd) station (some (.at d)) =
+      .ok (answerOf Raw.key Entry.ofRaw (st.posvel.map (·.2)) d) := by
+  have he : (Source.ssc dd).isEmpty = false := by cases dd <;> simp_all [Source.isEmpty]
+  simp only [moduleGet1, historyOf, he, hst, historyGet, histOfRaws, answerOf]
+  rw [show (fun (x : Interval × Raw) => (x.1, Entry.ofRaw x.2)) = (fun (k, a) => (k, Entry.ofRaw a)) from rfl]
+  simp only [Bool.false_eq_true, if_false]
+  rw [histGet_map]
+  cases histGet (createHistory Raw.key (st.posvel.map (·.2)) []) d <;> rfl
+
+/-- what `answerOf` is: the four lookup facts, for any record type -/
+theorem answerOf_spec {ρ} (key : ρ → Interval) (toEntry : ρ → Entry) (rs : List ρ) (d : Date) :
+    (∀ e, answerOf key toEntry rs d = .entry e → ∃ r ∈ rs, e = toEntry r ∧ Within (key r) d) ∧
+    ((∃ r ∈ rs, Within (key r) d) → ∃ r ∈ rs, Within (key r) d ∧ answerOf key toEntry rs d = .entry (toEntry r)) ∧
+    ((∀ r ∈ rs, ¬ Within (key r) d) → answerOf key toEntry rs d = .none) ∧
+    (rs.Pairwise (fun a b => Apart (key a) (key b)) →
+      ∀ r ∈ rs, Within (key r) d → answerOf key toEntry rs d = .entry (toEntry r)) := by
+  refine ⟨?_, ?_, ?_, ?_⟩
+  · intro e he
+    simp only [answerOf] at he
+    cases hg : histGet (createHistory key rs []) d with
+    | none => simp [hg] at he
+    | some r =>
+      simp only [hg, Val.entry.injEq] at he
+      obtain ⟨hm, hw⟩ := lookup_sound key rs d r hg
+      exact ⟨r, hm, he.symm, hw⟩
+  · intro ⟨r, hr, hw⟩
+    have := lookup_complete key rs d r hr hw
+    cases hg : histGet (createHistory key rs []) d with
+    | none => simp [hg] at this
+    | some r' =>
+      obtain ⟨hm, hw'⟩ := lookup_sound key rs d r' hg
+      exact ⟨r', hm, hw', by simp [answerOf, hg]⟩
+  · intro hgap
+    simp [answerOf, lookup_none key rs d hgap]
+  · intro hdis r hr hw
+    simp [answerOf, lookup_unique key rs d r hdis hr hw]
+
+/-- **SSC source, the other modules**: an SSC file has no antenna / receiver / eccentricity
+information — a known station answers `None` for every date -/
+theorem ssc_no_information (m : Module) (hm : m = .antenna ∨ m = .receiver ∨ m = .eccentricity)
+    (dd : List (Str × SscStation)) (station : Str) (st : SscStation) (q : DateQ)
+    (hne : dd ≠ []) (hst : findKey dd station = some st) :
+    moduleGet1 m (.ssc dd) station (some q) = .ok .none := by
+  have he : (Source.ssc dd).isEmpty = false := by cases dd <;> simp_all [Source.isEmpty]
+  rcases hm with h | h | h <;> subst h <;> simp [moduleGet1, historyOf, he, hst, historyGet]
+
+/-- **SINEX source**: `Antenna.get("snx", …)` is the interval search over `site_antenna` -/
+theorem snx_antenna_get (dd : List (Str × SnxStation)) (station : Str) (st : SnxStation) (rs : List Raw)
+    (d : Date) (hne : dd ≠ []) (hst : findKey dd station = some st) (hb : st.ant = some rs) :
+    moduleGet1 .antenna (.snx dd) station (some (.at d)) = .ok (answerOf Raw.key Entry.ofRaw rs d) := by
+  have he : (Source.snx dd).isEmpty = false := by cases dd <;> simp_all [Source.isEmpty]
+  simp only [moduleGet1, historyOf, he, hst, hb, historyGet, histOfRaws, answerOf, Bool.false_eq_true, if_false]
+  rw [show (fun (x : Interval × Raw) => (x.1, Entry.ofRaw x.2)) = (fun (k, a) => (k, Entry.ofRaw a)) from rfl,
+    histGet_map]
+  cases histGet (createHistory Raw.key rs []) d <;> rfl
+
+theorem snx_receiver_get (dd : List (Str × SnxStation)) (station : Str) (st : SnxStation) (rs : List Raw)
+    (d : Date) (hne : dd ≠ []) (hst : findKey dd station = some st) (hb : st.rcv = some rs) :
+    moduleGet1 .receiver (.snx dd) station (some (.at d)) = .ok (answerOf Raw.key Entry.ofRaw rs d) := by
+  have he : (Source.snx dd).isEmpty = false := by cases dd <;> simp_all [Source.isEmpty]
+  simp only [moduleGet1, historyOf, he, hst, hb, historyGet, histOfRaws, answerOf, Bool.false_eq_true, if_false]
+  rw [show (fun (x : Interval × Raw) => (x.1, Entry.ofRaw x.2)) = (fun (k, a) => (k, Entry.ofRaw a)) from rfl,
+    histGet_map]
+  cases histGet (createHistory Raw.key rs []) d <;> rfl
+
+theorem snx_eccentricity_get (dd : List (Str × SnxStation)) (station : Str) (st : SnxStation) (rs : List Raw)
+    (d : Date) (hne : dd ≠ []) (hst : findKey dd station = some st) (hb : st.ecc = some rs) :
+    moduleGet1 .eccentricity (.snx dd) station (some (.at d)) = .ok (answerOf Raw.key Entry.ofRaw rs d) := by
+  have he : (Source.snx dd).isEmpty = false := by cases dd <;> simp_all [Source.isEmpty]
+  simp only [moduleGet1, historyOf, he, hst, hb, historyGet, histOfRaws, answerOf, Bool.false_eq_true, if_false]
+  rw [show (fun (x : Interval × Raw) => (x.1, Entry.ofRaw x.2)) = (fun (k, a) => (k, Entry.ofRaw a)) from rfl,
+    histGet_map]
+  cases histGet (createHistory Raw.key rs []) d <;> rfl
+
+/-- **SINEX coordinates**: the interval search over the `solution_epochs` records, each merged with the
+estimates of its `soln` -/
+theorem snx_siteCoord_get (dd : List (Str × SnxStation)) (station : Str) (st : SnxStation) (est : List Est)
+    (d : Date) (hne : dd ≠ []) (hst : findKey dd station = some st) (hb : st.est = some est) :
+    moduleGet1 .siteCoord (.snx dd) station (some (.at d)) =
+      .ok (answerOf Combined.key (fun c => ⟨c.raw.tag, c.params⟩) (combine st.epochs est) d) := by
+  have he : (Source.snx dd).isEmpty = false := by cases dd <;> simp_all [Source.isEmpty]
+  simp only [moduleGet1, historyOf, he, hst, hb, historyGet, histOfCombined, answerOf, Bool.false_eq_true, if_false]
+  have h := histGet_map (fun c : Combined => (⟨c.raw.tag, c.params⟩ : Entry))
+    (createHistory Combined.key (combine st.epochs est) []) d
+  simp only at h
+  rw [show (fun (x : Interval × Combined) => (x.1, (⟨x.2.raw.tag, x.2.params⟩ : Entry))) =
+      (fun (x : Interval × Combined) => match x with | (k, a) => (k, (⟨a.raw.tag, a.params⟩ : Entry))) from rfl, h]
+  cases histGet (createHistory Combined.key (combine st.epochs est) []) d <;> rfl
+
+/-- a SINEX file without `SOLUTION/ESTIMATE` for the station has no coordinate information -/
+theorem snx_siteCoord_none (dd : List (Str × SnxStation)) (station : Str) (st : SnxStation) (q : DateQ)
+    (hne : dd ≠ []) (hst : findKey dd station = some st) (hb : st.est = none) :
+    moduleGet1 .siteCoord (.snx dd) station (some q) = .ok .none := by
+  have he : (Source.snx dd).isEmpty = false := by cases dd <;> simp_all [Source.isEmpty]
+  simp [moduleGet1, historyOf, he, hst, hb, historyGet]
+
+/-- the interval of a merged coordinate record is the interval of its epoch record -/
+theorem combine_keys (epochs : List Epoch) (est : List Est) :
+    (combine (some epochs) est).map Combined.key = epochs.map (fun e => e.raw.key) := by
+  simp [combine, Combined.key, List.map_map, Function.comp_def]
+
+/-- **'last' through the modules** (SSC coordinates): the entry with the greatest `(start, end)` of the
+`pos_vel` records, `None` for a station without records -/
+theorem ssc_siteCoord_last (dd : List (Str × SscStation)) (station : Str) (st : SscStation)
+    (hne : dd ≠ []) (hst : findKey dd station = some st) :
+    moduleGet1 .siteCoord (.ssc dd) station (some .last) =
+      .ok (match histLast (histOfRaws (st.posvel.map (·.2))) with
+           | none => .none
+           | some (_, e) => .entry e) := by
+  have he : (Source.ssc dd).isEmpty = false := by cases dd <;> simp_all [Source.isEmpty]
+  simp only [moduleGet1, historyOf, he, hst, historyGet, Bool.false_eq_true, if_false]
+  rfl
+
+/-! ### The `Clean` side condition of `combined_eq_modules`: sufficient for plain names, and necessary -/
+
+/-- a name without comma and without outer blanks is `Clean` once lower-cased — so for list-form
+stations the side condition only excludes elements that are not plain station names -/
+theorem clean_of_plain (s : Str) (h44 : 44 ∉ s) (hs : strip s = s) : Clean (lower s) := by
+  have hl : 44 ∉ lower s := by
+    intro hm
+    simp only [lower, List.mem_map] at hm
+    obtain ⟨c, hc, hc44⟩ := hm
+    rw [(lowerC_comma c).1 hc44] at hc
+    exact h44 hc
+  simp only [Clean, normStations, splitComma_nocomma _ hl, List.map_cons, List.map_nil]
+  congr 1
+  show lower (strip (lower s)) = lower s
+  rw [show lower s = s.map lowerC from rfl, strip_map lowerC isBlank_lowerC, hs]
+  exact lower_idem s
+
+/-- **combined = modules**, list form: for a list of plain station names (no comma, no outer blanks,
+any letter case) no side condition is left -/
+theorem combined_eq_modules_list (src : Source) (l : List Str) (date : Option DateQ)
+    (hplain : ∀ x ∈ l, 44 ∉ x ∧ strip x = x)
+    (all : List (Str × List (Module × Val))) (hall : siteInfoGet src (.list l) date = .ok all)
+    (m : Module) (res : List (Str × Val)) (hres : moduleGet m src (.list l) (dateFor m date) = .ok res)
+    (s : Str) (hs : s ∈ normStations (.list l)) :
+    ∃ ms, dictGet? all s = some ms ∧ dictGet? ms m = some (pick res s) := by
+  have hclean : Clean s := by
+    simp only [normStations, List.mem_map] at hs
+    obtain ⟨x, hx, rfl⟩ := hs
+    exact clean_of_plain x (hplain x hx).1 (hplain x hx).2
+  exact combined_eq_modules src (.list l) date all hall m res hres s hs hclean
+
+/-! The condition cannot be dropped: `SiteInfo.get` hands each list element to the modules *as text*,
+so an element with a comma is split once more.  Witness: a source that has the three stations
+`"a,b"`, `"a"` and `"b"`, asked for the list `["a,b"]`. -/
+
+def witnessStation (tag : Nat) : SnxStation :=
+  ⟨some [⟨none, none, tag⟩], some [], some [], some (tag + 100), none, none⟩
+
+def witnessSrc : Source := .snx [([97, 44, 98], witnessStation 7), ([97], witnessStation 8), ([98], witnessStation 9)]
+
+/-- **the side condition is necessary**: for the list `["a,b"]` (not `Clean`) the module answers with
+the entry of station `"a,b"` (tag 7) while the combined query answers `None` for the same station -/
+theorem clean_needed :
+    ¬ Clean [97, 44, 98] ∧
+    [97, 44, 98] ∈ normStations (.list [[97, 44, 98]]) ∧
+    (moduleGet .antenna witnessSrc (.list [[97, 44, 98]]) (some .last)).toOption.map (pick · [97, 44, 98])
+      = some (.entry ⟨7, []⟩) ∧
+    (((siteInfoGet witnessSrc (.list [[97, 44, 98]]) (some .last)).toOption.bind
+        (dictGet? · [97, 44, 98])).bind (dictGet? · Module.antenna)) = some .none := by
+  refine ⟨by unfold Clean; decide +kernel, by decide +kernel, by decide +kernel, by decide +kernel⟩
+
 /-! ### The generated tables: the model's module list is the code's -/
 
 def moduleName : Module → String
@@ -906,3 +1091,17 @@ end Midgard.Props.C18
 #print axioms Midgard.Props.C18.modules_eq_source
 #print axioms Midgard.Props.C18.file_sources_registered
 #print axioms Midgard.Props.C18.shared_lookup_not_overridden
+#print axioms Midgard.Props.C18.histGet_map
+#print axioms Midgard.Props.C18.ssc_siteCoord_get
+#print axioms Midgard.Props.C18.answerOf_spec
+#print axioms Midgard.Props.C18.ssc_no_information
+#print axioms Midgard.Props.C18.snx_antenna_get
+#print axioms Midgard.Props.C18.snx_receiver_get
+#print axioms Midgard.Props.C18.snx_eccentricity_get
+#print axioms Midgard.Props.C18.snx_siteCoord_get
+#print axioms Midgard.Props.C18.snx_siteCoord_none
+#print axioms Midgard.Props.C18.combine_keys
+#print axioms Midgard.Props.C18.ssc_siteCoord_last
+#print axioms Midgard.Props.C18.clean_of_plain
+#print axioms Midgard.Props.C18.combined_eq_modules_list
+#print axioms Midgard.Props.C18.clean_needed
